@@ -112,7 +112,7 @@ def _expire_spec(ex, st, post, result):
                'by the refresh rule the cache has for serving; without either, tiles do not expire')
 
 
-contract(C + 'TileManager.expire_timestamp', props=['C13'],
+contract(C + 'TileManager.expire_timestamp', props=['C13', 'C12'],
          types=dict(tile='opaque'), returns='opt[real]', modifies=[],
          default_callee='opaque', opaque_spec={'before_timestamp_from_options': {'returns': 'real', 'pure': True}},
          # (the rule was parsed once when the configuration was loaded; a rule that cannot be evaluated - unreadable mtime file -
